@@ -50,7 +50,13 @@ type mItemObs struct {
 type msgsObs struct {
 	Pt, Sender, Msg string
 	Inflight        bool
-	Held            bool // an honest update of the victim waits for a silent peer (its machine mutex is held for 30 s) while the messages arrive
+	Variant         string
+	OwnKind         string // "~own": the victim's own request ...
+	OwnHonest       bool   // ... answered by the real M (control)
+	OwnRes          string // ok | rejected | timeout | error
+	OwnDetail       string
+	Nonce           []string // "~nonce": violated clauses
+	Held            bool     // an honest update of the victim waits for a silent peer (its machine mutex is held for 30 s) while the messages arrive
 	SetupErr        string
 	Stage           string
 	Items           []mItemObs
@@ -84,17 +90,26 @@ func msgsExec(mode msgsMode) func(t *testing.T, ssc schedrun.Scenario, o vsched.
 	return func(t *testing.T, ssc schedrun.Scenario, o vsched.Options) (*vsched.Sched, any) {
 		ptFull, sender, names := splitCase(ssc.Name)
 		pt, variant, _ := strings.Cut(ptFull, "~")
-		obs := &msgsObs{Pt: pt, Sender: sender, Msg: names, Inflight: variant == "inflight", Held: variant == "held", Stage: "setup"}
+		obs := &msgsObs{Pt: pt, Sender: sender, Msg: names, Variant: variant, Inflight: variant == "inflight", Held: variant == "held", Stage: "setup"}
 		// "~seq": the messages are delivered 60 s apart; "~gap": 11 s apart (just longer than the 10 s
 		// the client waits for a matching funding / settlement proposal)
 		gap := map[string]time.Duration{"seq": 60 * time.Second, "gap": 11 * time.Second}[variant]
-		cases := lookupCases(sender, names)
+		var cases []*mcase
+		if variant != "nonce" {
+			cases = lookupCases(sender, names)
+		}
+		if variant == "own" {
+			obs.OwnKind, obs.OwnHonest = cases[0].Own, cases[0].OwnHonest
+		}
 		s := vsched.Run(t, o, func() {
 			n := 2
 			if strings.HasPrefix(pt, "hub-") {
 				n = 3
 			}
 			w := NewWorld(n, nil, false)
+			if variant == "unreach" {
+				rewireVictim(w)
+			}
 			sc := &mScene{w: w, V: w.P[0], M: w.P[1], S: newStranger(77), Pt: pt}
 			if err := sc.setup(); err != nil {
 				obs.SetupErr = err.Error()
@@ -110,9 +125,28 @@ func msgsExec(mode msgsMode) func(t *testing.T, ssc schedrun.Scenario, o vsched.
 			}
 			// Nothing the victim answers reaches the real M (the harness speaks for M now). With an honest
 			// update of the victim in flight, requests pass and only responses are dropped.
+			if variant == "nonce" {
+				// honest openings, the victim's handler accepts: no adversary
+				V.OnProposal, V.OnUpdate = nil, nil
+				obs.PropsBefore, obs.ChansBefore = len(V.ProposalsSeen), len(V.Chans)
+				obs.Nonce = sc.nonceRun(strings.TrimPrefix(names, "nonce/"))
+				obs.PropsAfter, obs.ChansAfter = len(V.ProposalsSeen), len(V.Chans)
+				obs.Errs = append(obs.Errs, V.HandlerErrs...)
+				obs.Stage = "done"
+				return
+			}
 			vRequestOut := false
 			w.Bus.Drop = func(e *wire.Envelope) bool {
 				if w.partyOf(e.Sender) == V.Idx {
+					if obs.OwnKind != "" && sc.ownReq == nil {
+						switch e.Msg.(type) {
+						case client.ChannelProposal, *client.ChannelUpdateMsg:
+							sc.ownReq = e.Msg
+						}
+					}
+					if obs.OwnHonest {
+						return false
+					}
 					if _, isReq := e.Msg.(*client.ChannelUpdateMsg); isReq {
 						vRequestOut = true
 						if obs.Inflight {
@@ -177,7 +211,24 @@ func msgsExec(mode msgsMode) func(t *testing.T, ssc schedrun.Scenario, o vsched.
 					}
 				}
 			}
-			if obs.Held {
+			if obs.OwnKind != "" {
+				// The victim makes a request of its own (20 s). Unless this is the control, the request is lost
+				// on the way to the real M and the harness answers in M's (or the stranger's) name.
+				done := make(chan struct{}, 1)
+				vsched.GoNamed("v-own-request", func() {
+					obs.OwnRes, obs.OwnDetail = sc.ownRequest(obs.OwnKind)
+					vsched.Send(done, struct{}{})
+				})
+				if obs.OwnHonest {
+					for i := range cases {
+						obs.Items[i] = mItemObs{Name: cases[i].Name, Cat: cases[i].Cat, NA: true}
+					}
+				} else {
+					vsched.WaitCond("await-victim-request", func() bool { return sc.ownReq != nil })
+					injectAll()
+				}
+				vsched.Recv(done)
+			} else if obs.Held {
 				// The victim proposes an honest update; the request is lost, the peer stays silent: the victim's
 				// Update holds the machine mutex until its 30 s context ends. The crafted messages arrive while
 				// it waits (their handlers give up on the mutex after 10 s).
@@ -573,6 +624,14 @@ type msgsPlan struct {
 	// victim waits 30 s for a silent peer, at HeldPts
 	HeldPts  []string
 	HeldCats map[string]bool
+	// Unreach family: these messages of the stranger at UnreachPts, the victim on a bus where
+	// publishing to an unserved address blocks until the context ends
+	UnreachPts   []string
+	UnreachNames []string
+	// Own family: crafted responses to the victim's own requests (category "own")
+	Own bool
+	// Nonce family (C08): honest openings of these kinds with the victim as responder
+	NoncePts map[string]string // kind -> point
 }
 
 type gapFamily struct {
@@ -593,6 +652,27 @@ func msgsScenarios(mode msgsMode, plan msgsPlan) func(res *report.Result) []sche
 					continue
 				}
 				out = append(out, schedrun.Scenario{Name: pt + "/" + c.Sender + "/" + c.Name, Mode: explore.Delay, Bound: 0, MaxSteps: 400000, Weight: 1})
+			}
+		}
+		for _, pt := range plan.UnreachPts {
+			for _, n := range plan.UnreachNames {
+				if lookupCase("S", n).applies(pt) {
+					out = append(out, schedrun.Scenario{Name: pt + "~unreach/S/" + n, Mode: explore.Delay, Bound: 0, MaxSteps: 400000, Weight: 2})
+				}
+			}
+		}
+		if plan.Own {
+			for _, pt := range ownAllPoints {
+				for i := range all {
+					if c := &all[i]; c.Cat == "own" && c.applies(pt) {
+						out = append(out, schedrun.Scenario{Name: pt + "~own/" + c.Sender + "/" + c.Name, Mode: explore.Delay, Bound: 0, MaxSteps: 400000, Weight: 2})
+					}
+				}
+			}
+		}
+		for _, kind := range []string{"ledger", "sub"} {
+			if pt, ok := plan.NoncePts[kind]; ok {
+				out = append(out, schedrun.Scenario{Name: pt + "~nonce/M/nonce/" + kind, Mode: explore.Delay, Bound: 0, MaxSteps: 400000, Weight: 2})
 			}
 		}
 		for _, pt := range plan.HeldPts {
@@ -749,7 +829,10 @@ func msgsDigest(mode msgsMode) func(schedrun.Scenario, *vsched.Sched, any) strin
 		if msgsRes != nil {
 			msgsRes.Sample(10, map[string]any{"case": ssc.Name, "items": obs.Items, "probes": obs.Probes})
 		}
-		return fmt.Sprintf("%s|%s|props=%d chans=%d upds=%d|%v|%s|%v|%v|%v", obs.Stage, sb.String(), obs.PropsAfter-obs.PropsBefore,
+		if obs.OwnKind != "" {
+			msgsCount("own_request:"+obs.OwnRes, 1)
+		}
+		return fmt.Sprintf("%s|%v|%s|%s|props=%d chans=%d upds=%d|%v|%s|%v|%v|%v", obs.OwnRes, obs.Nonce, obs.Stage, sb.String(), obs.PropsAfter-obs.PropsBefore,
 			obs.ChansAfter-obs.ChansBefore, obs.UpdsSeen, obs.Probes, obs.InflightRes, len(s.Panics) > 0, s.Deadlock, obs.SetupErr)
 	}
 }
@@ -764,6 +847,12 @@ func msgsDescribe(_ schedrun.Scenario, s *vsched.Sched, o any) string {
 	}
 	for _, p := range obs.Probes {
 		fmt.Fprintf(&sb, "  probe %s: %s\n", p.What, p.Res)
+	}
+	if obs.OwnKind != "" {
+		fmt.Fprintf(&sb, "  the victim's own %s request (honest peer: %v): %s %s\n", obs.OwnKind, obs.OwnHonest, obs.OwnRes, obs.OwnDetail)
+	}
+	for _, n := range obs.Nonce {
+		fmt.Fprintf(&sb, "  nonce: %s\n", n)
 	}
 	if obs.Inflight || obs.Held {
 		fmt.Fprintf(&sb, "  in-flight update of the victim: %s\n", obs.InflightRes)
@@ -823,15 +912,19 @@ func probeVerdicts(prop string, obs *msgsObs) (out []schedrun.Verdict) {
 }
 
 var idxRangeRe = regexp.MustCompile(`\[\d+\] with length \d+`)
+var typeNameRe = regexp.MustCompile(`\b(expected|got) \*?[A-Za-z0-9_.]+`)
 
 // msgsPanicSite: panic message + innermost go-perun function, with the numbers of an index error
-// removed (one signature per site, whatever index the message provoked).
+// and the type names of a type assertion removed (one signature per site, whatever the message provoked).
 func msgsPanicSite(p string) string {
 	site := panicSite(p)
-	if i := strings.LastIndex(site, "@"); i >= 0 {
-		return idxRangeRe.ReplaceAllString(site[:i], "[i] with length n") + site[i:]
+	norm := func(m string) string {
+		return typeNameRe.ReplaceAllString(idxRangeRe.ReplaceAllString(m, "[i] with length n"), "$1 T")
 	}
-	return idxRangeRe.ReplaceAllString(site, "[i] with length n")
+	if i := strings.LastIndex(site, "@"); i >= 0 {
+		return norm(site[:i]) + site[i:]
+	}
+	return norm(site)
 }
 
 var _ = wallet.Sig(nil)
